@@ -30,7 +30,7 @@ RULE = (
     "write index of a cold run x {lost write, crash before, crash after} followed by restarts on the surviving store, then key-file truncation / "
     "deletion / replacement across a restart. Non-trivial = a hit was served or an injected cache fault fired on a stored entry; distinct = digest "
     "of (program shape, cache flags, backend, history / fault point)."
-    ' Further: cacheable nodes with emit outputs on DiskCache, two gates sharing one function with equal targets but different emit names, two graphs that differ in one node (extra emit / sibling closure made by the same file-defined factory) sharing one cache, a long-lived DiskCache object serving warm run, hit and damaged lookups.'
+    ' Further: cacheable nodes with emit outputs on DiskCache, two gates sharing one function with equal targets but different emit names, two graphs that differ in one node (extra emit / sibling closure made by the same file-defined factory) sharing one cache, a long-lived DiskCache object serving warm run, hit and damaged lookups; cacheable nodes that return / receive an unpicklable value (in-memory histories).'
 )
 ASSUMPTIONS = [
     "values are immutable (InMemoryCache shares objects by reference)",
@@ -149,6 +149,14 @@ def gen_case(rng: random.Random, tier: str) -> dict:
         g = gen.gen_program(rng, max_nodes=6, feats={**gen.gen_feats(rng), "maps": rng.random() < 0.3})
         _mark_cache(g, rng, 0.6)
         shared = _add_shared(g, rng) if rng.random() < 0.4 else []
+        if rng.random() < 0.2:
+            # a legal value that cannot be pickled (lock, client object, lambda): a cacheable node RETURNS one and a cacheable node RECEIVES it.
+            # The in-memory backend keeps the output by reference; the consumer's key cannot be computed, so it simply is not cached.
+            scal = [e for e in g["ext"] if e not in g["lists"]]
+            if scal:
+                g["nodes"].append({"kind": "fn", "name": "opq", "params": [{"name": scal[0]}], "outs": ["opq_o"], "beh": "opaque", "cache": True})
+                g["nodes"].append({"kind": "fn", "name": "opq_use", "params": [{"name": "opq_o"}], "outs": ["opq_u"], "cache": True})
+                g["order"] = list(g["order"]) + [len(g["nodes"]) - 2, len(g["nodes"]) - 1]
         inp = gen.program_inputs(rng, g, list_len=(1, 3))
         backend = rng.choice([{"kind": "mem", "max_size": None}, {"kind": "mem", "max_size": rng.randint(1, 3)}, {"kind": "harness"}])
         runs = []
